@@ -302,9 +302,14 @@ func doParseType(vt reflect.Type, def string, i *int, allowPtrs bool) (*Type, er
 		/* parse the pointer element recursively */
 		if ret.V, err = doParseType(vt.Elem(), def, i, false); err != nil {
 			return nil, err
-		} else {
-			return ret, nil
 		}
+
+		/* maps, slices and binaries are already nil-able references, pointers to them are not supported */
+		switch ret.V.T {
+		case T_map, T_set, T_list, T_binary:
+			return nil, EType(vt, "pointers to map, list, set or binary are not allowed")
+		}
+		return ret, nil
 	}
 
 	/* check for value kind */
